@@ -15,7 +15,7 @@ def _run_once(k, chunk, limit, tag, attempt):
         for c in chunk:
             f.write(json.dumps(c) + "\n")
     env = dict(os.environ, PYTHONPATH=REPO, PYTHONHASHSEED="0", PYTHONDONTWRITEBYTECODE="1")
-    total = sum(c.get("limit", limit) for c in chunk) + 30
+    total = 6 * sum(c.get("limit", limit) for c in chunk) + 120     # wall clock; per-case limits are CPU time
     try:
         subprocess.run([PY, WORKER, REPO, fin, fout, str(limit)], env=env, timeout=total,
                        stdout=subprocess.PIPE, stderr=subprocess.PIPE, cwd=d)
